@@ -88,3 +88,275 @@ Proof.
   rewrite <- F. destruct (forallb (fun j => memb j (all_indices n1)) (c_sliced c)); [|exact I].
   split; [reflexivity|]. split; [reflexivity|]. intros HR. apply (HC _ t HR).
 Qed.
+
+(* =====================================================================================
+   the cache state machine (_maybe_run_optimizer) over an abstractly specified store
+   ===================================================================================== *)
+(* What the machine needs from a DiskDict implementation: an invariant, an abstraction
+   view : state -> key -> option entry, and the three operations behaving as a map on
+   the keys that hash_query produces. *)
+Definition store_spec (ops : ddops con) (Inv : dd con -> Prop)
+           (view : dd con -> dkey -> option con) (good : dkey -> Prop) : Prop :=
+  (forall d k, Inv d -> good k ->
+     fst (o_contains ops d k) = (match view d k with Some _ => true | None => false end) /\
+     Inv (snd (o_contains ops d k)) /\ (forall k', view (snd (o_contains ops d k)) k' = view d k')) /\
+  (forall d k, Inv d -> good k ->
+     fst (o_getitem ops d k) = (match view d k with Some c => Ok c | None => KeyErr end) /\
+     Inv (snd (o_getitem ops d k)) /\ (forall k', view (snd (o_getitem ops d k)) k' = view d k')) /\
+  (forall d k c, Inv d -> good k ->
+     Inv (o_setitem ops d k c) /\ view (o_setitem ops d k c) k = Some c /\
+     (forall k', good k' -> k' <> k -> view (o_setitem ops d k c) k' = view d k')).
+
+(* one step of the machine on the abstract entry of the query's key:
+   (result, Some c = the entry becomes c | None = unchanged, was the sub-optimizer run) *)
+Definition spec_step (c : cfg) (cur : option con) (new : con) : res (bool * con) * (option con * bool) :=
+  match cur, overwrite c with
+  | Some old, OvFalse => (Ok (false, old), (None, false))
+  | _, _ =>
+      if cache_only c then (KeyErr, (None, false)) else
+      match cur, overwrite c with
+      | Some old, OvImproved =>
+          if (c_score new <? c_score old)%Z then (Ok (true, new), (Some new, true))
+          else (Ok (false, old), (None, true))
+      | _, _ => (Ok (true, new), (Some new, true))
+      end
+  end.
+
+Section MachineFacts.
+Variable H : fpr -> name.
+Variable ops : ddops con.
+Variable orc : nat -> net -> con.
+Variable Inv : dd con -> Prop.
+Variable view : dd con -> dkey -> option con.
+Variable good : dkey -> Prop.
+Hypothesis SP : store_spec ops Inv view good.
+Hypothesis key_good : forall c q, good (key_of H c q).
+
+Notation mrun := (maybe_run H ops orc).
+
+(* the refinement lemma: the machine implements spec_step on the store's abstraction *)
+Theorem maybe_run_refines c d ns q : Inv d ->
+  let k := key_of H c q in
+  let st' := snd (mrun c (d, ns) q) in
+  let sp := spec_step c (view d k) (orc ns q) in
+  fst (mrun c (d, ns) q) = fst sp /\
+  snd st' = (if snd (snd sp) then S ns else ns) /\
+  Inv (fst st') /\
+  view (fst st') k = (match fst (snd sp) with Some x => Some x | None => view d k end) /\
+  (forall k', good k' -> k' <> k -> view (fst st') k' = view d k').
+Proof.
+  intros HI k st' sp. destruct SP as (SC & SG & SS).
+  pose proof (key_good c q) as Gk. fold k in Gk.
+  destruct (SC d k HI Gk) as (C1 & C2 & C3).
+  unfold st', sp, maybe_run. fold k.
+  destruct (o_contains ops d k) as [present d1] eqn:EC. cbn [fst snd] in C1, C2, C3.
+  destruct (SG d1 k C2 Gk) as (G1 & G2 & G3).
+  assert (V1 : view d1 k = view d k) by apply C3.
+  unfold spec_step.
+  destruct (view d k) as [old|] eqn:EV.
+  - (* present *)
+    subst present. cbn [negb orb].
+    rewrite V1 in G1.
+    destruct (overwrite c) eqn:EO.
+    + (* OvFalse: plain hit *)
+      destruct (o_getitem ops d1 k) as [r d2] eqn:EG. cbn [fst snd] in *. subst r. cbn [fst snd].
+      repeat split; try assumption; try reflexivity.
+      * rewrite G3. exact V1.
+      * intros k' _ _. rewrite G3. apply C3.
+    + (* OvTrue *)
+      destruct (cache_only c); cbn [fst snd].
+      * repeat split; try assumption; try reflexivity. intros k' _ _. apply C3.
+      * destruct (SS d1 k (orc ns q) C2 Gk) as (S1 & S2 & S3).
+        repeat split; try assumption; try reflexivity.
+        intros k' Gk' Hne. rewrite S3 by assumption. apply C3.
+    + (* OvImproved *)
+      destruct (cache_only c); cbn [fst snd].
+      * repeat split; try assumption; try reflexivity. intros k' _ _. apply C3.
+      * destruct (o_getitem ops d1 k) as [r d2] eqn:EG. cbn [fst snd] in *. subst r.
+        destruct (c_score (orc ns q) <? c_score old)%Z; cbn [fst snd].
+        -- destruct (SS d2 k (orc ns q) G2 Gk) as (S1 & S2 & S3).
+           repeat split; try assumption; try reflexivity.
+           intros k' Gk' Hne. rewrite S3 by assumption. rewrite G3. apply C3.
+        -- repeat split; try assumption; try reflexivity.
+           ++ rewrite G3. exact V1.
+           ++ intros k' _ _. rewrite G3. apply C3.
+  - (* missing *)
+    subst present. cbn [negb orb].
+    assert (E : (match overwrite c with OvFalse => (if cache_only c then (KeyErr, (None, false)) else (Ok (true, orc ns q), (Some (orc ns q), true)))
+                 | _ => (if cache_only c then (KeyErr, (None, false)) else (Ok (true, orc ns q), (Some (orc ns q), true))) end)
+                = (if cache_only c then (@KeyErr (bool * con), (@None con, false)) else (Ok (true, orc ns q), (Some (orc ns q), true))))
+      by (destruct (overwrite c); reflexivity).
+    destruct (cache_only c); cbn [fst snd].
+    + destruct (overwrite c); cbn [fst snd]; repeat split; try assumption; try reflexivity; intros k' _ _; apply C3.
+    + destruct (SS d1 k (orc ns q) C2 Gk) as (S1 & S2 & S3).
+      destruct (overwrite c); cbn [fst snd]; repeat split; try assumption; try reflexivity;
+        intros k' Gk' Hne; (rewrite S3 by assumption); apply C3.
+Qed.
+End MachineFacts.
+
+Section MachineCorollaries.
+Variable H : fpr -> name.
+Variable ops : ddops con.
+Variable orc : nat -> net -> con.
+Variable Inv : dd con -> Prop.
+Variable view : dd con -> dkey -> option con.
+Variable good : dkey -> Prop.
+Hypothesis SP : store_spec ops Inv view good.
+Hypothesis key_good : forall c q, good (key_of H c q).
+
+Notation mrun := (maybe_run H ops orc).
+Notation refines := (maybe_run_refines H ops orc Inv view good SP key_good).
+
+(* whatever is handed out is, afterwards, the entry stored under the QUERY's own key;
+   an answer given without running the sub-optimizer was that entry already *)
+Theorem answer_is_stored c d ns q b cn : Inv d ->
+  fst (mrun c (d, ns) q) = Ok (b, cn) ->
+  view (fst (snd (mrun c (d, ns) q))) (key_of H c q) = Some cn /\
+  (b = false -> view d (key_of H c q) = Some cn).
+Proof.
+  intros HI E. destruct (refines c d ns q HI) as (R1 & _ & _ & R4 & _).
+  rewrite E in R1. rewrite R4. clear R4. unfold spec_step in *.
+  destruct (view d (key_of H c q)) as [old|]; destruct (overwrite c); destruct (cache_only c); cbn in *;
+    try discriminate;
+    try (destruct (c_score (orc ns q) <? c_score old)%Z; cbn in * );
+    inversion R1; subst; split; try reflexivity; try discriminate; intros _; reflexivity.
+Qed.
+
+(* with overwrite=False an entry, once present, never changes ... *)
+Theorem ovfalse_entry_stable c d ns q k0 cn : Inv d -> overwrite c = OvFalse -> good k0 ->
+  view d k0 = Some cn -> view (fst (snd (mrun c (d, ns) q))) k0 = Some cn.
+Proof.
+  intros HI EO G0 V. destruct (refines c d ns q HI) as (_ & _ & _ & R4 & R5).
+  destruct (dkey_eqb k0 (key_of H c q)) eqn:E.
+  - apply dkey_eqb_eq in E. subst k0. rewrite R4. unfold spec_step. rewrite V, EO. reflexivity.
+  - rewrite R5; [exact V|exact G0|]. intros ->.
+    assert (T : dkey_eqb (key_of H c q) (key_of H c q) = true) by (apply dkey_eqb_eq; reflexivity). congruence.
+Qed.
+
+(* ... so repeating a query returns the same record and does not search again *)
+Theorem repeat_query_no_search_same_path c d ns q b cn : Inv d -> overwrite c = OvFalse ->
+  fst (mrun c (d, ns) q) = Ok (b, cn) ->
+  let st1 := snd (mrun c (d, ns) q) in
+  fst (mrun c st1 q) = Ok (false, cn) /\ snd (snd (mrun c st1 q)) = snd st1.
+Proof.
+  intros HI EO E st1. destruct (answer_is_stored c d ns q b cn HI E) as [V _].
+  destruct (refines c d ns q HI) as (_ & _ & I1 & _ & _). fold st1 in V, I1.
+  destruct st1 as [d1 ns1]. cbn [fst snd] in *.
+  destruct (refines c d1 ns1 q I1) as (R1 & R2 & _). rewrite R1, R2.
+  unfold spec_step. rewrite V, EO. split; reflexivity.
+Qed.
+
+(* overwrite='improved': the stored score of any entry never gets worse *)
+Theorem improved_monotone c d ns q k0 old : Inv d -> overwrite c = OvImproved -> good k0 ->
+  view d k0 = Some old ->
+  exists new, view (fst (snd (mrun c (d, ns) q))) k0 = Some new /\ (c_score new <= c_score old)%Z.
+Proof.
+  intros HI EO G0 V. destruct (refines c d ns q HI) as (_ & _ & _ & R4 & R5).
+  destruct (dkey_eqb k0 (key_of H c q)) eqn:E.
+  - apply dkey_eqb_eq in E. subst k0. rewrite R4. unfold spec_step. rewrite V, EO.
+    destruct (cache_only c); cbn [fst snd]; [exists old; split; [reflexivity|lia]|].
+    destruct (c_score (orc ns q) <? c_score old)%Z eqn:L; cbn [fst snd].
+    + exists (orc ns q). split; [reflexivity|]. apply Z.ltb_lt in L. lia.
+    + exists old. split; [reflexivity|lia].
+  - exists old. split; [|lia]. rewrite R5; [exact V|exact G0|]. intros ->.
+    assert (T : dkey_eqb (key_of H c q) (key_of H c q) = true) by (apply dkey_eqb_eq; reflexivity). congruence.
+Qed.
+
+(* cache_only: the sub-optimizer is never run and no entry changes *)
+Theorem cache_only_never_searches c d ns q : Inv d -> cache_only c = true ->
+  snd (snd (mrun c (d, ns) q)) = ns /\
+  (forall k, good k -> view (fst (snd (mrun c (d, ns) q))) k = view d k) /\
+  (forall b cn, fst (mrun c (d, ns) q) = Ok (b, cn) -> b = false /\ view d (key_of H c q) = Some cn).
+Proof.
+  intros HI EC. destruct (refines c d ns q HI) as (R1 & R2 & _ & R4 & R5).
+  assert (SPEC : spec_step c (view d (key_of H c q)) (orc ns q) =
+                 match view d (key_of H c q), overwrite c with
+                 | Some old, OvFalse => (Ok (false, old), (None, false))
+                 | _, _ => (KeyErr, (None, false)) end).
+  { unfold spec_step. rewrite EC. destruct (view d (key_of H c q)); destruct (overwrite c); reflexivity. }
+  rewrite SPEC in *. split; [|split].
+  - rewrite R2. destruct (view d (key_of H c q)); destruct (overwrite c); reflexivity.
+  - intros k Gk. destruct (dkey_eqb k (key_of H c q)) eqn:E.
+    + apply dkey_eqb_eq in E. subst k. rewrite R4.
+      destruct (view d (key_of H c q)); destruct (overwrite c); reflexivity.
+    + apply R5; [exact Gk|]. intros ->.
+      assert (T : dkey_eqb (key_of H c q) (key_of H c q) = true) by (apply dkey_eqb_eq; reflexivity). congruence.
+  - intros b cn E. rewrite E in R1.
+    destruct (view d (key_of H c q)); destruct (overwrite c); cbn in R1; inversion R1; subst; split; reflexivity.
+Qed.
+
+(* the behaviour depends on the store only through its abstraction: two states that hold the
+   same entries (e.g. the writer's process and a fresh process over the same directory)
+   answer every query alike and keep holding the same entries *)
+Theorem view_determines_behaviour c d1 d2 ns q : Inv d1 -> Inv d2 ->
+  (forall k, good k -> view d1 k = view d2 k) ->
+  fst (mrun c (d1, ns) q) = fst (mrun c (d2, ns) q) /\
+  snd (snd (mrun c (d1, ns) q)) = snd (snd (mrun c (d2, ns) q)) /\
+  (forall k, good k -> view (fst (snd (mrun c (d1, ns) q))) k = view (fst (snd (mrun c (d2, ns) q))) k).
+Proof.
+  intros I1 I2 EV.
+  destruct (refines c d1 ns q I1) as (A1 & A2 & _ & A4 & A5).
+  destruct (refines c d2 ns q I2) as (B1 & B2 & _ & B4 & B5).
+  pose proof (EV _ (key_good c q)) as Ek. rewrite Ek in A1, A2, A4.
+  split; [congruence|]. split; [congruence|].
+  intros k Gk. destruct (dkey_eqb k (key_of H c q)) eqn:E.
+  - apply dkey_eqb_eq in E. subst k. rewrite A4, B4. reflexivity.
+  - assert (Hne : k <> key_of H c q).
+    { intros ->. assert (T : dkey_eqb (key_of H c q) (key_of H c q) = true) by (apply dkey_eqb_eq; reflexivity). congruence. }
+    rewrite A5, B5 by assumption. apply EV, Gk.
+Qed.
+
+(* ---- whole sessions ------------------------------------------------------------------ *)
+Lemma run_queries_cons c st q qs :
+  run_queries H ops orc c st (q :: qs) =
+  (fst (mrun c st q) :: fst (run_queries H ops orc c (snd (mrun c st q)) qs),
+   snd (run_queries H ops orc c (snd (mrun c st q)) qs)).
+Proof.
+  cbn [run_queries]. destruct (mrun c st q) as [r st1]. cbn [fst snd].
+  destruct (run_queries H ops orc c st1 qs) as [rs st2]. reflexivity.
+Qed.
+
+Theorem session_inv c qs : forall d ns, Inv d -> Inv (fst (snd (run_queries H ops orc c (d, ns) qs))).
+Proof.
+  induction qs as [|q qs IH]; intros d ns HI; [exact HI|].
+  rewrite run_queries_cons. cbn [snd].
+  destruct (refines c d ns q HI) as (_ & _ & I1 & _).
+  destruct (snd (mrun c (d, ns) q)) as [d1 ns1]. apply IH. exact I1.
+Qed.
+
+Theorem session_cache_only_never_searches c qs : cache_only c = true -> forall d ns, Inv d ->
+  snd (snd (run_queries H ops orc c (d, ns) qs)) = ns /\
+  (forall k, good k -> view (fst (snd (run_queries H ops orc c (d, ns) qs))) k = view d k).
+Proof.
+  intros EC. induction qs as [|q qs IH]; intros d ns HI; [split; reflexivity|].
+  rewrite run_queries_cons. cbn [snd].
+  destruct (cache_only_never_searches c d ns q HI EC) as (N1 & V1 & _).
+  destruct (refines c d ns q HI) as (_ & _ & I1 & _).
+  destruct (snd (mrun c (d, ns) q)) as [d1 ns1]. cbn [fst snd] in *. subst ns1.
+  destruct (IH d1 ns I1) as (N2 & V2). split; [exact N2|].
+  intros k Gk. rewrite V2 by exact Gk. apply V1, Gk.
+Qed.
+
+Theorem session_improved_monotone c qs : overwrite c = OvImproved -> forall d ns k0 old, Inv d -> good k0 ->
+  view d k0 = Some old ->
+  exists new, view (fst (snd (run_queries H ops orc c (d, ns) qs))) k0 = Some new /\ (c_score new <= c_score old)%Z.
+Proof.
+  intros EO. induction qs as [|q qs IH]; intros d ns k0 old HI G0 V; [exists old; split; [exact V|lia]|].
+  rewrite run_queries_cons. cbn [snd].
+  destruct (improved_monotone c d ns q k0 old HI EO G0 V) as (mid & Vm & Lm).
+  destruct (refines c d ns q HI) as (_ & _ & I1 & _).
+  destruct (snd (mrun c (d, ns) q)) as [d1 ns1]. cbn [fst snd] in *.
+  destruct (IH d1 ns1 k0 mid I1 G0 Vm) as (new & Vn & Ln). exists new. split; [exact Vn|lia].
+Qed.
+
+Theorem session_ovfalse_stable c qs : overwrite c = OvFalse -> forall d ns k0 cn, Inv d -> good k0 ->
+  view d k0 = Some cn -> view (fst (snd (run_queries H ops orc c (d, ns) qs))) k0 = Some cn.
+Proof.
+  intros EO. induction qs as [|q qs IH]; intros d ns k0 cn HI G0 V; [exact V|].
+  rewrite run_queries_cons. cbn [snd].
+  pose proof (ovfalse_entry_stable c d ns q k0 cn HI EO G0 V) as V1.
+  destruct (refines c d ns q HI) as (_ & _ & I1 & _).
+  destruct (snd (mrun c (d, ns) q)) as [d1 ns1]. cbn [fst snd] in *. apply IH; assumption.
+Qed.
+
+End MachineCorollaries.
